@@ -31,7 +31,10 @@ CMP_COQ = {"=": "CEq", "<": "CLt", "<=": "CLe", ">": "CGt", ">=": "CGe"}
 # 60fb795 applied), "prequote" (60fb795 reverted), "legacy" (all three reverted) -- the latter two only for
 # regression experiments on scratch copies.
 DEFAULT_VARIANT = "current"
-LABEL_FN = {"current": "case_labels", "prequote": "case_labels_prequote", "legacy": "case_labels_legacy"}
+LABEL_FN = {"current": "case_labels", "prequote": "case_labels_prequote", "legacy": "case_labels_legacy",
+            # proposed repairs applied on a scratch copy: all four / one at a time
+            "next": "case_labels_next", "ortab": "case_labels_ortab", "ninfo": "case_labels_ninfo",
+            "nnull": "case_labels_nnull", "njunc": "case_labels_njunc"}
 
 KNOWN_CLASSES = {
     2: "inverted-named-in-junction",
